@@ -9,6 +9,8 @@
          JSON-representable static type, or is an expression *and* dump() encodes
          expression-valued meta; non-expression constructor arguments are typed JSON-safe.
   C12.d  pickle delegates to the same pair: __reduce__ returns (load, (dump(self),)).
+  C12.e  DType codec: dump writes .value <=> _load looks up by value.
+  C12.f  no function memoised (lru_cache) on expression-typed parameters.
 Does not decide: value round trips (tuple->list, empty list vs absent), equality of SQL.
 """
 
@@ -328,7 +330,88 @@ def rule_d(ctx: Ctx) -> None:
             ctx.fail(g.module, g.node, g.key, name, f"Expr.{name} no longer delegates to serde.{callee}")
 
 
-RULES = [rule_a, rule_b, rule_c, rule_d]
+def rule_e(ctx: Ctx) -> None:
+    ctx.rule("C12.e", "enum codec agreement: what dump() writes for a DType member (.value or .name) is what _load() uses to look the member up (DType(v) by value, DType[v] by name)")
+    m = ctx.repo.module(SERDE)
+    dump = ctx.repo.func(SERDE, "dump")
+    ld = ctx.repo.func(SERDE, "_load")
+    written = [
+        st.value.attr for st in walk_no_nested(dump.node)
+        if isinstance(st, ast.Assign) and len(st.targets) == 1 and norm(st.targets[0]) == "payload[VALUE]" and isinstance(st.value, ast.Attribute) and st.value.attr in ("value", "name")
+    ]
+    ctx.require(len(written) == 1, "anchor vanished: dump() no longer stores payload[VALUE] = node.value|name for DType members")
+    read = []
+    for r in walk_no_nested(ld.node):
+        if isinstance(r, ast.Return) and r.value is not None and "payload[VALUE]" in norm(r.value):
+            v = r.value
+            if isinstance(v, ast.Call) and len(v.args) == 1 and norm(v.args[0]) == "payload[VALUE]":
+                read.append(("value", norm(v.func), r))
+            elif isinstance(v, ast.Subscript) and norm(v.slice) == "payload[VALUE]":
+                read.append(("name", norm(v.value), r))
+            else:
+                read.append(("?", norm(v), r))
+    ctx.require(len(read) == 1, "anchor vanished: _load() no longer returns the DType member looked up from payload[VALUE]")
+    how, cls_, node = read[0]
+    if how == written[0] and cls_.split(".")[-1] == "DType":
+        ctx.ok(f"{SERDE}|DType codec|by {how}", {"dump_writes": f"node.{written[0]}", "load_reads": norm(node.value)})
+    else:
+        ctx.fail(m, node, ld.key, node.value,
+                 f"dump() writes a DType member's .{written[0]} but _load() looks it up by {how} ({norm(node.value)}): members whose name and value differ "
+                 f"(DType.USERDEFINED = 'USER-DEFINED') no longer load")
+
+
+def _memoised_on_trees(tree: ast.AST, expr_names: set[str]) -> list[tuple[ast.AST, str]]:
+    """functions carrying a caching decorator whose parameters are annotated with an expression class"""
+    out = []
+    for fn in ast.walk(tree):
+        if not isinstance(fn, (ast.FunctionDef, ast.AsyncFunctionDef)):
+            continue
+        deco = [d for d in fn.decorator_list if any(k in norm(d) for k in ("lru_cache", "functools.cache", "cached_property")) or norm(d) in ("cache", "functools.cache")]
+        if not deco or "cached_property" in norm(deco[0]):
+            continue
+        for a in fn.args.posonlyargs + fn.args.args + fn.args.kwonlyargs:
+            if a.annotation is None:
+                continue
+            toks = {x.attr if isinstance(x, ast.Attribute) else x.id if isinstance(x, ast.Name) else "" for x in ast.walk(a.annotation)}
+            if isinstance(a.annotation, ast.Constant) and isinstance(a.annotation.value, str):
+                toks |= set(a.annotation.value.replace("|", " ").replace("[", " ").replace("]", " ").replace(".", " ").split())
+            hit = toks & expr_names
+            if hit:
+                out.append((fn, f"{norm(deco[0])} on parameter {a.arg}: {sorted(hit)[0]}"))
+                break
+    return out
+
+
+def rule_f(ctx: Ctx) -> None:
+    ctx.rule("C12.f", "no memoisation keyed on tree equality on the serialisation path: no lru_cache/cache-decorated function in sqlglot.serde (or a module it calls into) takes an expression-typed parameter "
+                      "(Expression.__eq__/__hash__ ignore comments, meta, types and identifier case, so such a memo hands out a look-alike's result)")
+    names = set(facts(ctx.repo)["expr_classes"]) | {"Expr", "Expression", "ExpOrStr", "E"}
+    # positive control: the matcher must recognise the construct it forbids
+    probe = ast.parse("from functools import lru_cache\n@lru_cache(maxsize=8)\ndef f(dtype: exp.DataType) -> list: ...\n")
+    ctx.require(len(_memoised_on_trees(probe, names)) == 1, "internal: C12.f matcher no longer recognises its positive control")
+    n = 0
+    # scope: the serialisation module itself plus every function its dump/load/_load call by name (one level, resolved through imports)
+    scope_mods = {SERDE}
+    sm = ctx.repo.module(SERDE)
+    for fn_ in sm.funcs.values():
+        for c in walk_no_nested(fn_.node):
+            if isinstance(c, ast.Call) and call_name(c):
+                r = ctx.repo.resolve_name(sm, call_name(c))
+                if r and r[1]:
+                    scope_mods.add(r[0].name)
+    for mname in sorted(scope_mods):
+        m = ctx.repo.module(mname)
+        n += sum(1 for fn in m.of_type(ast.FunctionDef))
+        for fn, why in _memoised_on_trees(m.tree, names):
+            f = m.func_for(fn) if hasattr(m, "func_for") else None
+            where = f"{m.name}:{fn.name}"
+            ctx.fail(m, fn, where, f"@{why}", f"{fn.name} is memoised on an expression argument ({why}): equal-but-different trees (case, comments, meta, type annotations) share one cached result")
+    ctx.ok("serde|no function memoised on expression-typed parameters", {"functions_scanned": n, "modules": sorted(scope_mods)})
+    ctx.count("functions_scanned", n)
+    ctx.min_instances("functions_scanned", n, 3)
+
+
+RULES = [rule_a, rule_b, rule_c, rule_d, rule_e, rule_f]
 THOROUGH_RULES = [rule_c_args]
 EXPLANATION = (
     "Writer/reader agreement of the serialisation format decided from the source: set equality between payload keys "
